@@ -37,10 +37,15 @@ impl Expect {
     fn settle(&mut self) {
         loop {
             if !self.pending.is_empty() && self.permits > 0 {
-                let (_, c) = self.pending.remove(0);
+                let (l, c) = self.pending.remove(0);
                 if !self.gone.contains(&c) {
                     self.permits -= 1;
                     self.active.push(c);
+                } else if let Some(i) = self.backlog.iter().position(|(bl, _)| *bl == l) {
+                    // the listener goes on accepting before the handler of the one that is gone
+                    // runs and hands the permit back
+                    let x = self.backlog.remove(i);
+                    self.pending.push(x);
                 }
                 continue;
             }
@@ -141,6 +146,36 @@ impl Drop for Listeners {
     }
 }
 
+/// connections the kernel holds for a listening socket that the accept loop has not taken yet
+fn accept_queue(port: u16) -> Option<usize> {
+    let t = std::fs::read_to_string("/proc/net/tcp").ok()?;
+    for l in t.lines() {
+        let f: Vec<&str> = l.split_whitespace().collect();
+        if f.len() > 4 && f[3] == "0A" && f[1].ends_with(&format!(":{:04X}", port)) {
+            // for a listening socket rx_queue is the current length of the accept queue
+            let q = f[4].split(':').nth(1)?;
+            return usize::from_str_radix(q, 16).ok();
+        }
+    }
+    None
+}
+
+/// wait until each listener has taken from its accept queue what the model says it takes
+/// (a listener that waits for a slot leaves the rest there): the order in which listeners
+/// begin to wait is the order of the events, not of their threads' wake-ups
+fn sync_accepts(ls: &Listeners, expect: &Expect) {
+    let t0 = Instant::now();
+    for (l, a) in ls.addrs.iter().enumerate() {
+        let want = expect.backlog.iter().filter(|(bl, _)| *bl == l).count();
+        loop {
+            match accept_queue(a.port()) {
+                Some(q) if q > want && t0.elapsed() < SERVED_DEADLINE => std::thread::sleep(Duration::from_millis(1)),
+                _ => break,
+            }
+        }
+    }
+}
+
 /// send a noop on every open connection, then collect: a connection expected to be served
 /// is waited for up to SERVED_DEADLINE, the others for UNSERVED_WAIT after the last send
 fn probe_all(conns: &mut BTreeMap<usize, Cl>, expect: &Expect, trace: &mut String, obs: &mut String) -> bool {
@@ -238,6 +273,7 @@ pub fn run_case(id: &str, limit: u32, k: usize, nevents: usize, rng: &mut Rng, t
         }
         events += 1;
         // the connect / the close has to reach the server before the probes mean anything
+        sync_accepts(&ls, &expect);
         std::thread::sleep(Duration::from_millis(15));
         if !probe_all(&mut conns, &expect, trace, obs) {
             break; // the rest of the case would only cost time
